@@ -30,6 +30,12 @@ def corpus(thorough):
                 seen[r["code"]] = n + 1
         if fmt == "uclchem":
             keep.append({"reactants": ["H", "H"], "products": ["H2"], "a": "1.0e-17", "b": "0.0", "c": "0.0", "tmin": "0", "tmax": "0", "idx": 999, "code": ""})
+        if fmt in ("kida", "leeds", "naunet"):
+            # all slots used: 3 reactants / 5 products
+            full = dict(keep[0])
+            full["reactants"] = ["CH3OH", "He+", {"kida": "CR", "leeds": "CRP", "naunet": "CR"}[fmt]]
+            full["products"] = ["He", "C+", "OH", "H2", "H"]
+            keep.append(full)
         for k, r in enumerate(keep):
             r["idx"] = k + 1
         out.append((f"enc-{fmt}", {"files": [{"name": f"net.{fmt}", "content": rp.file_text(fmt, keep)}], "network": {"filelist": f"net.{fmt}", "fileformats": fmt}}, keep, fmt))
@@ -39,7 +45,9 @@ def corpus(thorough):
     api = [{"reactants": ["H", "H"], "products": ["H2"], "alpha": 1.5e-10, "beta": -0.5, "gamma": 3.25, "temp_min": 10.0, "temp_max": 300.0, "reaction_type": 100, "idxfromfile": 7},
            {"reactants": ["H2", "CR"], "products": ["H", "H"], "alpha": 2.0e-17, "reaction_type": 101, "idxfromfile": 8},
            {"reactants": ["CO", "PHOTON"], "products": ["C", "O"], "alpha": 2.0e-10, "gamma": 2.5, "reaction_type": 102, "idxfromfile": 9},
-           {"reactants": ["H", "H", "H"], "products": ["H2", "H"], "alpha": 1e-32, "beta": -1.0, "reaction_type": 100, "idxfromfile": -1}]
+           {"reactants": ["H", "H", "H"], "products": ["H2", "H"], "alpha": 1e-32, "beta": -1.0, "reaction_type": 100, "idxfromfile": -1},
+           {"reactants": ["CH3OH2+", "e-"], "products": ["C", "O", "H", "H2", "H2"], "alpha": 3e-8, "beta": -0.5, "reaction_type": 100, "idxfromfile": 11},
+           {"reactants": ["CH3OH", "He+", "CR"], "products": ["He", "C+", "OH", "H2", "H"], "alpha": 1e-9, "reaction_type": 100, "idxfromfile": 12}]
     out.append(("API", {"reactions": api, "network": {}}, None, "api"))
     return out
 
